@@ -31,6 +31,18 @@ def flat(sh):
     for x in sh.get('a', []): out += flat(x)
     return out
 
+def has_nullary_fn(sh):
+    return (sh['k'] == 'TFunc' and len(sh['a']) == 1) or any(has_nullary_fn(x) for x in sh.get('a', []))
+
+def flat_marked(sh):
+    """like flat(), but a function without parameters contributes a marker (the two types of a collision differ in where it sits)"""
+    out = [sh['k'] if 'name' not in sh else sh['name']]
+    if sh['k'] == 'TFunc' and len(sh['a']) == 1: out.append('<no-params>')
+    if 'len' in sh: out.append(str(sh['len']))
+    if 'base' in sh: out = [sh['base']['name']]
+    for x in sh.get('a', []): out += flat_marked(x)
+    return out
+
 def names_of(sh):
     out = [sh['name']] if 'name' in sh else []
     if 'base' in sh: out += names_of(sh['base'])
@@ -39,6 +51,7 @@ def names_of(sh):
 
 def classify(x, y):
     if [t.lower() for t in flat(x)] == [t.lower() for t in flat(y)] and flat(x) != flat(y): return 'case-folded'
+    if flat(x) == flat(y) and (has_nullary_fn(x) or has_nullary_fn(y)) and not (flat_marked(x) == flat_marked(y)): return 'nullary-fn-unmarked'
     if flat(x) == flat(y): return 'arity-erased'
     if any('_' in n for n in names_of(x) + names_of(y)): return 'name-spells-encoding'
     return 'unclassified'
@@ -46,6 +59,7 @@ def classify(x, y):
 WHAT = {'case-folded': 'the reference-cell struct name lower-cases the encoded element type: types that differ only in letter case share one name',
         'arity-erased': "encode_ty joins components with '_' and records no arity: differently grouped types get one encoding",
         'name-spells-encoding': "encode_ty does not escape '_' in user type names: a name containing '_' collides with a structured type",
+        'nullary-fn-unmarked': 'a function type without parameters leaves no trace in the name: differently nested function types share one name',
         'unclassified': 'two distinct concrete types get the same encoding (outside every known collision class)'}
 
 def native_encode(shapes):
@@ -119,4 +133,6 @@ def obligations(prefix):
                       dict(top=['TStruct', 'TInt32', 'TBool', 'TTuple', 'TVec', 'TRef'], inner=['TStruct', 'TInt32'], leaves=['TStruct', 'TInt32'], names=('A', 'a', 'A_B'), vec_len=(0, 2), depth=1, fn='ref_struct_name')))
         obs.append(Ob('O19.4b-go_type_name_for', 'go_type_name_for injective (tuple / array / vec / ref / fn helper type names, depth <= 1)', ob_encode, ('quick', 'thorough'), 3,
                       dict(top=['TTuple', 'TArray', 'TVec', 'TRef', 'TFunc', 'TStruct', 'TInt32'], inner=['TStruct', 'TInt32', 'TBool'], leaves=['TStruct', 'TInt32', 'TBool'], names=('A', 'B', 'A_B', 'Tuple2_A_B'), vec_len=(0, 2), depth=1, fn='go_type_name_for')))
+        obs.append(Ob('O19.4b-go_type_name_for-fn2', 'go_type_name_for injective on nested function types (0..1 parameters, depth 2)', ob_encode, ('quick', 'thorough'), 3,
+                      dict(top=['TFunc', 'TTuple'], inner=['TFunc', 'TInt32', 'TBool'], leaves=['TInt32', 'TBool'], names=('A',), vec_len=(0, 1), depth=2, fn='go_type_name_for')))
     return obs
